@@ -56,8 +56,11 @@ Theorem T18_resume_measurements : forall c k m,
   (c_restore c = true -> r = p_iter c m p_init).
 Proof. exact resume_measurements. Qed.
 
-(* REFUTED for the records themselves on the faithful time-evolution protocol (design finding F12:
-   trunc_err is not part of get_resume_data): the error component restarts after the resume *)
+(* REFUTED for the records themselves on the time-evolution protocol WITHOUT restoring the accumulated
+   error (c_restore = false: the behaviour of the tree before /repo commit b662f88, finding F12, where
+   trunc_err was not part of get_resume_data): the error component restarts after the resume.  With that
+   commit c_restore = true is the faithful setting and T18_resume_measurements gives identical records;
+   this theorem remains as the proof that restoring the error is necessary. *)
 Theorem T18_resume_eps_error_refuted : exists c k m,
   c_kind c = TE /\ c_restore c = false /\
   at_snapshot c (p_iter c k p_init) = true /\ is_done (p_iter c m p_init) = true /\
